@@ -385,12 +385,14 @@ impl Display for Expr {
             Expr::Symbol(ident) => write!(formatter, ":{ident}"),
             Expr::Function(ident, param) => write!(formatter, "{ident}({param})"),
             Expr::Index(left, right) => match (left.as_ref(), right) {
-                // `.1` after `f5`, `d5` or a reference called `f` or `d` would be read as the
-                // fraction of a float or decimal literal
+                // `.1` after `f5`, `d5` or a reference or symbol called `f` or `d` would be read as
+                // the fraction of a float or decimal literal
                 (Expr::Value(Value::Float(_) | Value::Decimal(_)), Index::Vec(_)) => {
                     write!(formatter, "(({left}).{right})")
                 }
-                (Expr::Reference(name), Index::Vec(_)) if name == "f" || name == "d" => {
+                (Expr::Reference(name) | Expr::Symbol(name), Index::Vec(_))
+                    if name == "f" || name == "d" =>
+                {
                     write!(formatter, "(({left}).{right})")
                 }
                 _ => write!(formatter, "({}.{right})", Operand(left)),
